@@ -1097,6 +1097,46 @@ func (w *c19W) failDiff(it *c19Item, diff, prefix string, f mc.Failure) {
 	w.fail(it, f)
 }
 
+// ------------------------------------------------------------------ (h) dictionaries that were copied and changed
+
+// (h): A is copied to B, B loses its first key and gains a new one; 生成JSON of A
+// is the text of the untouched dictionary and 生成JSON of B the text of the changed one.
+func (w *c19W) checkCopied(it *c19Item) {
+	c := w.c
+	d := it.d
+	if len(d.Keys) == 0 || !it.gen {
+		return
+	}
+	for _, k := range d.Keys {
+		if k == "新" {
+			return
+		}
+	}
+	changed := &c19N{K: 'd', Keys: append(append([]string{}, d.Keys[1:]...), "新"), Items: append(append([]*c19N{}, d.Items[1:]...), c19Num(1))}
+	gb := c19Generate(changed)
+	wantB, ok := gb.text()
+	if !ok {
+		return
+	}
+	src := "导入《@JSON》\n输入A\n令B = A\n以B（移除：“" + zn.EncodeStr(d.Keys[0]) + "”）\n以B（写入：“新”、1）\n输出【（生成JSON：A），（生成JSON：B）】"
+	o := zn.RunReal(src, map[string]r.Element{"A": zn.ToElem(d.toV())})
+	c.Eval(len(d.Keys) >= 2)
+	c.Stat("h_copied_and_changed_dictionaries", 1)
+	cs := it.cs("h")
+	cs.Variant = src
+	var got []string
+	if arr, isArr := o.Elem.(*value.Array); isArr && arr != nil {
+		got, _ = c14Strings(arr)
+	}
+	if o.Panic != "" || o.Err != nil || len(got) != 2 || got[0] != it.text || got[1] != wantB {
+		kind := "mismatch"
+		if o.Panic != "" {
+			kind = "panic"
+		}
+		w.fail(it, mc.Failure{Kind: kind, Bucket: "h:copied", Case: mc.J(cs), Expected: "【" + c14Clip(it.text) + "，" + c14Clip(wantB) + "】 (the copy's changes do not show in the original's JSON, and the copy's JSON follows its own key order)", Observed: c19ShowOutcome(o)})
+	}
+}
+
 // ------------------------------------------------------------------ (g) shared sub-values
 
 // A dictionary may hold the SAME list / dictionary object twice (a literal that
@@ -1442,6 +1482,9 @@ func (w *c19W) process(items []*c19Item) {
 			c.Stat("dictionaries_with_2_or_more_keys_at_some_level", 1)
 		}
 		w.checkGo(it, c19Repeats, "")
+		if it.nodes <= 4 {
+			w.checkCopied(it)
+		}
 	}
 	if w.py == nil || w.py.dead != nil {
 		return
@@ -1547,7 +1590,7 @@ func init() {
 			"Level B: structure with three scalar leaves (text \", 1e21, 空) plus empty list and empty dictionary, the node counts above level A's up to 5 (quick) / 6 (thorough). " +
 			"Per dictionary: (a) Python's strict reading of 生成JSON(d), (b) 解析JSON(生成JSON(d)) == d under zn.CanonElem with key order, parsed 43 times (+3 per document of (d): >= 64 parses of the same member order per dictionary), (c) the same through in-language 为, (d) 7-8 documents written by Python json.dumps (compact/indent=2 x ensure_ascii on/off, default separators, numbers as floats, whitespace-padded, \\/ escapes) parsed back, " +
 			"(e) for dictionaries of <= 3 nodes (level A) and <= 4 / <= 5 nodes (level B): every single-character deletion, every replacement by one of \" \\ { } [ ] , : 0 x, every one-character suffix and the doubled document, judged by Python (valid -> same value, invalid -> exception catchable by 拦截异常; through a program with a handler for level A <= 2 nodes quick / <= 3 nodes thorough, by the error class otherwise). " +
-			"(g) every value of <= 3 nodes (level B) held twice AS ONE OBJECT by a dictionary of 4 shapes (two keys, twice in a list, once nested, list and key): 生成JSON gives the text of the unshared copy, directly and through a literal naming one input variable twice. " +
+			"(h) every dictionary of <= 4 nodes copied to a second name, the copy losing its first key and gaining a new one: 生成JSON of the original is unchanged and 生成JSON of the copy follows the copy. (g) every value of <= 3 nodes (level B) held twice AS ONE OBJECT by a dictionary of 4 shapes (two keys, twice in a list, once nested, list and key): 生成JSON gives the text of the unshared copy, directly and through a literal naming one input variable twice. " +
 			"Level F: every dictionary of <= 4 (quick) / <= 5 (thorough) nodes over leaves {NaN, +Inf, -Inf, 1, é} that contains a non-finite number: 生成JSON must raise catchably. Non-trivial: more than a one-member object of a plain ASCII text / small integer / 真 假 空.",
 		Assumptions: []string{
 			"numbers are compared as doubles under ==: -0 and 0 are equal (Python reads -0 as the integer 0), 2^53+1 is compared after rounding to the nearest double; how a number is spelled (1e+21, 1.0, \\u escapes, HTML-safe \\u003c) is free as long as the document is RFC 8259-valid",
@@ -1732,6 +1775,9 @@ func c19Replay(c *mc.Ctx, raw json.RawMessage) {
 		w.checkCorrupt(it, c19Mut{doc, cs.Variant}, &rds[0], cs.E2E, c19ReplayRepeats)
 	case "top":
 		w.checkCorrupt(it, c19Mut{doc, cs.Variant}, &c19Read{OK: true, Top: "scalar"}, true, 1)
+	case "h":
+		w.checkGo(it, 1, "a")
+		w.checkCopied(it)
 	case "g":
 		w.checkShared(c19NewGen("B:three-leaves", c19LeavesSmall), cs.Rank)
 	case "f":
